@@ -282,6 +282,97 @@ def trie_rules(rep, fb, r5, r6):
     rep.check(any(_skel.guarded_by(gw, gg, n, ('hasWord',)) for n in own), r6, 'Trie::getChildsWithWords|own word', gw.where(), 'the node itself is added when it is a word: %s' % any(_skel.guarded_by(gw, gg, n, ('hasWord',)) for n in own))
 
 
+def lookup_normalisation(rep, fb, rule, min_sites=2):
+    """every statically resolved descriptor token is normalised like nameMatch before the trie lookup (C12 R12.4; shared with C06)"""
+    sites = 0
+    for f in fb.funcs.values():
+        for n in f.walk():
+            if n.get('callee', {}).get('q') != 'uscxml::Trie::getWordsWithPrefix':
+                continue
+            arg = n['c'][1]
+            if all(s['k'] != 'DeclRefExpr' or 'lid' not in s.get('ref', {}) for s in sub(arg)):
+                continue   # literal prefix (enumeration of all words)
+            # does the argument derive from an event-attribute token?  the enclosing loops iterate tokenize(ATTR(.., event))
+            loops = [a for a in f.ancestors(n) if a['k'] in ('ForStmt', 'CXXForRangeStmt', 'WhileStmt')]
+            fn_src = ' '.join(fb.text(l)[:0] for l in loops)
+            from_event = False
+            from .. import path as pathm2
+            defs_f = pathm2.local_defs(f)
+            for s in f.walk():
+                if s.get('callee', {}).get('q') == 'uscxml::tokenize':
+                    if any(x.get('ref', {}).get('name') == 'kXMLCharEvent' for x in sub(s)):
+                        from_event = True
+                    for x in sub(s):
+                        if x['k'] == 'DeclRefExpr' and x.get('ref', {}).get('lid') in defs_f and any(
+                                y.get('ref', {}).get('name') == 'kXMLCharEvent' for d_ in defs_f[x['ref']['lid']] for y in sub(d_)):
+                            from_event = True
+            if not from_event or not loops:
+                continue
+            sites += 1
+            inner = loops[0]
+            feats = set()
+            # the loop body plus the bodies of repository helpers called in it (an extracted `descriptorToPrefix(token)`)
+            scan = list(sub(inner))
+            for s in list(scan):
+                c_ = s.get('callee')
+                if c_ and not c_.get('ext') and c_['m'] in fb.funcs and c_['q'] not in ('uscxml::Trie::getWordsWithPrefix', 'uscxml::tokenize') and not c_['q'].startswith(('uscxml::X::', 'uscxml::DOMUtils::')):
+                    cf_ = fb.funcs[c_['m']]
+                    if cf_.file == f.file or cf_.file.startswith('src/uscxml/util/'):
+                        scan += list(cf_.walk())
+            for s in scan:
+                q = s.get('callee', {}).get('q', '')
+                if q.startswith('boost::algorithm::ends_with') or q.startswith('boost::ends_with'):
+                    for x in sub(s):
+                        if x['k'] == 'StringLiteral' and 'str' in x:
+                            feats.add('ends:' + x['str'])
+                if s['k'] in ('CXXOperatorCallExpr', 'BinaryOperator') and s.get('op') == '==':
+                    for x in sub(s):
+                        if x['k'] == 'StringLiteral' and 'str' in x:
+                            feats.add('eq:' + x['str'])
+            # like nameMatch: ONE trailing "*" is dropped, then one trailing "."; stripping only ".*" leaves the token "*" (a wildcard
+            # among several descriptors) to be looked up literally, where it matches nothing
+            star = 'ends:*' in feats
+            dot = 'ends:.' in feats
+            sig = '%s|getWordsWithPrefix' % f.q
+            rep.check(star and dot, rule, sig, locstr(n),
+                      'descriptor normalisation before the trie lookup: features %s -> a trailing "*" %s, trailing "." %s' % (
+                          sorted(feats), 'is stripped from every token' if star else 'is NOT stripped per token (only ".*" / the whole attribute being "*"): event="foo *" resolves to `false || _event == FOO`, the interpreter matches everything', 'stripped' if dot else 'NOT stripped'))
+    rep.minimum(rule, sites, min_sites, 'trie lookups of event-attribute tokens (Promela, VHDL)')
+
+
+
+def vhdl_names(rep, rule):
+    """escapeMacro and toBinStr keep event names / codes apart (C12 R12.10; shared with C18)"""
+    rep.rule(rule, 'statically resolved matches keep event names apart: escapeMacro (signal names) writes every character of the name in place, appending strings or characters only (an integer appended to a std::string is narrowed to one byte), and toBinStr (event codes) emits the digits 0 and 1 only and pads to the full margin')
+    fbS = facts.FactBase(['src/uscxml/util/String.cpp'])
+    em = fbS.fn('uscxml::escapeMacro')
+    narrowed = [n for n in em.walk() if n['k'] == 'CXXOperatorCallExpr' and n.get('op') == '+=' and len(n['c']) > 2 and n['c'][2]['k'] == 'ImplicitCastExpr' and n['c'][2].get('ck') == 'IntegralCast' and
+                (n['c'][2].get('t') or '') == 'char']
+    rets = {x['ref'].get('lid') for n in em.walk() if n['k'] == 'ReturnStmt' and n.get('c') for x in sub(n['c'][0]) if x['k'] == 'DeclRefExpr' and 'lid' in x.get('ref', {})}
+    aside = []
+    for lp in em.walk():
+        if lp['k'] in ('ForStmt', 'CXXForRangeStmt', 'WhileStmt'):
+            for n in sub(lp['c'][-1]):
+                if n['k'] == 'CXXOperatorCallExpr' and n.get('op') == '+=' and strip(n['c'][1]) is not None and strip(n['c'][1])['k'] == 'DeclRefExpr' and strip(n['c'][1])['ref'].get('lid') not in rets and 'string' in (strip(n['c'][1]).get('t') or ''):
+                    aside.append(n)
+    rep.check(not narrowed and not aside, rule, 'escapeMacro', locstr((narrowed or aside or [em.d['body']])[0]) if (narrowed or aside) else em.where(), 'escapeMacro %s' % (
+        'writes every character in place' if not narrowed and not aside else 'collects the special characters aside%s: "a.bc" and "ab.c" become the same signal name, names with two dots get a control byte inside the identifier' % (
+            ' and appends an INTEGER (narrowed to one byte) to the name' if narrowed else '')))
+    tb_ = fbS.fn('uscxml::toBinStr')
+    bad_digit = []
+    for n in tb_.walk():
+        if n['k'] == 'BinaryOperator' and n.get('op') == '+' and any(x['k'] == 'CharacterLiteral' and x.get('int') == ord('0') for x in sub(n)):
+            other = [c_ for c_ in n['c'] if not any(x['k'] == 'CharacterLiteral' for x in sub(c_))]
+            for o in other:
+                inner = [x for x in sub(o) if x['k'] == 'BinaryOperator' and x.get('op') == '&']
+                if inner and not any(tab.const_of(x['c'][1]) == 1 for x in inner) and not any(x['k'] == 'BinaryOperator' and x.get('op') in ('!=', '==', '>') for x in sub(o)):
+                    bad_digit.append(n)
+    pad_loops = [lp for lp in tb_.walk() if lp['k'] in ('ForStmt', 'WhileStmt') and any(x.get('callee', {}).get('q', '').split('::')[-1] == 'size' for x in sub(lp['c'][2] if lp['k'] == 'ForStmt' and len(lp['c']) > 2 and lp['c'][2] is not None else lp['c'][0])) and any(
+        x['k'] == 'CXXOperatorCallExpr' and x.get('op') in ('=', '+=') for x in sub(lp['c'][-1]))]
+    rep.check(not bad_digit and not pad_loops, rule, 'toBinStr', locstr((bad_digit or pad_loops)[0]) if (bad_digit or pad_loops) else tb_.where(), 'toBinStr %s' % (
+        'emits binary digits and pads to the margin' if not bad_digit and not pad_loops else 'adds the masked VALUE (2, 4, 8 ..) to the character 0 and pads in a loop whose bound shrinks as the string grows: with three or more events the codes are "020", "0400" - no bit strings'))
+
+
 def run(rep, tier):
     rep.rule('R12.1', 'one matcher: the interpreter, the validator and the debugger decide descriptor matches by calling uscxml::nameMatch; no second matcher is defined in src/')
     rep.rule('R12.2', 'scanner loops (tokenize, spaceNormalize, nameMatch and the copies shipped for generated C) take every non-empty token: guard normal form start < i, and a skip/start/last-token combination from the confirmed-correct table')
@@ -463,60 +554,7 @@ def run(rep, tier):
         rep.ok('R12.8', 'matcher copies', 'no accepting return is reached through a case-insensitive comparison (%d returns)' % n_acc)
 
     # ---- R12.4
-    sites = 0
-    for f in fb.funcs.values():
-        for n in f.walk():
-            if n.get('callee', {}).get('q') != 'uscxml::Trie::getWordsWithPrefix':
-                continue
-            arg = n['c'][1]
-            if all(s['k'] != 'DeclRefExpr' or 'lid' not in s.get('ref', {}) for s in sub(arg)):
-                continue   # literal prefix (enumeration of all words)
-            # does the argument derive from an event-attribute token?  the enclosing loops iterate tokenize(ATTR(.., event))
-            loops = [a for a in f.ancestors(n) if a['k'] in ('ForStmt', 'CXXForRangeStmt', 'WhileStmt')]
-            fn_src = ' '.join(fb.text(l)[:0] for l in loops)
-            from_event = False
-            from .. import path as pathm2
-            defs_f = pathm2.local_defs(f)
-            for s in f.walk():
-                if s.get('callee', {}).get('q') == 'uscxml::tokenize':
-                    if any(x.get('ref', {}).get('name') == 'kXMLCharEvent' for x in sub(s)):
-                        from_event = True
-                    for x in sub(s):
-                        if x['k'] == 'DeclRefExpr' and x.get('ref', {}).get('lid') in defs_f and any(
-                                y.get('ref', {}).get('name') == 'kXMLCharEvent' for d_ in defs_f[x['ref']['lid']] for y in sub(d_)):
-                            from_event = True
-            if not from_event or not loops:
-                continue
-            sites += 1
-            inner = loops[0]
-            feats = set()
-            # the loop body plus the bodies of repository helpers called in it (an extracted `descriptorToPrefix(token)`)
-            scan = list(sub(inner))
-            for s in list(scan):
-                c_ = s.get('callee')
-                if c_ and not c_.get('ext') and c_['m'] in fb.funcs and c_['q'] not in ('uscxml::Trie::getWordsWithPrefix', 'uscxml::tokenize') and not c_['q'].startswith(('uscxml::X::', 'uscxml::DOMUtils::')):
-                    cf_ = fb.funcs[c_['m']]
-                    if cf_.file == f.file or cf_.file.startswith('src/uscxml/util/'):
-                        scan += list(cf_.walk())
-            for s in scan:
-                q = s.get('callee', {}).get('q', '')
-                if q.startswith('boost::algorithm::ends_with') or q.startswith('boost::ends_with'):
-                    for x in sub(s):
-                        if x['k'] == 'StringLiteral' and 'str' in x:
-                            feats.add('ends:' + x['str'])
-                if s['k'] in ('CXXOperatorCallExpr', 'BinaryOperator') and s.get('op') == '==':
-                    for x in sub(s):
-                        if x['k'] == 'StringLiteral' and 'str' in x:
-                            feats.add('eq:' + x['str'])
-            # like nameMatch: ONE trailing "*" is dropped, then one trailing "."; stripping only ".*" leaves the token "*" (a wildcard
-            # among several descriptors) to be looked up literally, where it matches nothing
-            star = 'ends:*' in feats
-            dot = 'ends:.' in feats
-            sig = '%s|getWordsWithPrefix' % f.q
-            rep.check(star and dot, 'R12.4', sig, locstr(n),
-                      'descriptor normalisation before the trie lookup: features %s -> a trailing "*" %s, trailing "." %s' % (
-                          sorted(feats), 'is stripped from every token' if star else 'is NOT stripped per token (only ".*" / the whole attribute being "*"): event="foo *" resolves to `false || _event == FOO`, the interpreter matches everything', 'stripped' if dot else 'NOT stripped'))
-    rep.minimum('R12.4', sites, 2, 'trie lookups of event-attribute tokens (Promela, VHDL)')
+    lookup_normalisation(rep, fb, 'R12.4')
 
     trie_rules(rep, fb, 'R12.5', 'R12.6')
 
@@ -524,31 +562,4 @@ def run(rep, tier):
     rep.rule('R12.9', 'a transition is eventless iff it has no event attribute: the engines decide it from the type bit set from the attribute\'s presence (as the generated C and the Promela model do), not from the length of the descriptor string (event="" names no event and matches nothing)')
     eventless_by_type_bit(rep, 'R12.9')
     # ---- R12.10 names derived from event names for the VHDL back-end
-    rep.rule('R12.10', 'statically resolved matches keep event names apart: escapeMacro (signal names) writes every character of the name in place, appending strings or characters only (an integer appended to a std::string is narrowed to one byte), and toBinStr (event codes) emits the digits 0 and 1 only and pads to the full margin')
-    fbS = facts.FactBase(['src/uscxml/util/String.cpp'])
-    em = fbS.fn('uscxml::escapeMacro')
-    narrowed = [n for n in em.walk() if n['k'] == 'CXXOperatorCallExpr' and n.get('op') == '+=' and len(n['c']) > 2 and n['c'][2]['k'] == 'ImplicitCastExpr' and n['c'][2].get('ck') == 'IntegralCast' and
-                (n['c'][2].get('t') or '') == 'char']
-    rets = {x['ref'].get('lid') for n in em.walk() if n['k'] == 'ReturnStmt' and n.get('c') for x in sub(n['c'][0]) if x['k'] == 'DeclRefExpr' and 'lid' in x.get('ref', {})}
-    aside = []
-    for lp in em.walk():
-        if lp['k'] in ('ForStmt', 'CXXForRangeStmt', 'WhileStmt'):
-            for n in sub(lp['c'][-1]):
-                if n['k'] == 'CXXOperatorCallExpr' and n.get('op') == '+=' and strip(n['c'][1]) is not None and strip(n['c'][1])['k'] == 'DeclRefExpr' and strip(n['c'][1])['ref'].get('lid') not in rets and 'string' in (strip(n['c'][1]).get('t') or ''):
-                    aside.append(n)
-    rep.check(not narrowed and not aside, 'R12.10', 'escapeMacro', locstr((narrowed or aside or [em.d['body']])[0]) if (narrowed or aside) else em.where(), 'escapeMacro %s' % (
-        'writes every character in place' if not narrowed and not aside else 'collects the special characters aside%s: "a.bc" and "ab.c" become the same signal name, names with two dots get a control byte inside the identifier' % (
-            ' and appends an INTEGER (narrowed to one byte) to the name' if narrowed else '')))
-    tb_ = fbS.fn('uscxml::toBinStr')
-    bad_digit = []
-    for n in tb_.walk():
-        if n['k'] == 'BinaryOperator' and n.get('op') == '+' and any(x['k'] == 'CharacterLiteral' and x.get('int') == ord('0') for x in sub(n)):
-            other = [c_ for c_ in n['c'] if not any(x['k'] == 'CharacterLiteral' for x in sub(c_))]
-            for o in other:
-                inner = [x for x in sub(o) if x['k'] == 'BinaryOperator' and x.get('op') == '&']
-                if inner and not any(tab.const_of(x['c'][1]) == 1 for x in inner) and not any(x['k'] == 'BinaryOperator' and x.get('op') in ('!=', '==', '>') for x in sub(o)):
-                    bad_digit.append(n)
-    pad_loops = [lp for lp in tb_.walk() if lp['k'] in ('ForStmt', 'WhileStmt') and any(x.get('callee', {}).get('q', '').split('::')[-1] == 'size' for x in sub(lp['c'][2] if lp['k'] == 'ForStmt' and len(lp['c']) > 2 and lp['c'][2] is not None else lp['c'][0])) and any(
-        x['k'] == 'CXXOperatorCallExpr' and x.get('op') in ('=', '+=') for x in sub(lp['c'][-1]))]
-    rep.check(not bad_digit and not pad_loops, 'R12.10', 'toBinStr', locstr((bad_digit or pad_loops)[0]) if (bad_digit or pad_loops) else tb_.where(), 'toBinStr %s' % (
-        'emits binary digits and pads to the margin' if not bad_digit and not pad_loops else 'adds the masked VALUE (2, 4, 8 ..) to the character 0 and pads in a loop whose bound shrinks as the string grows: with three or more events the codes are "020", "0400" - no bit strings'))
+    vhdl_names(rep, 'R12.10')
